@@ -44,14 +44,18 @@
    for exhaustive multi-article enumeration), "pairs" (whole articles  [heading] text X heading
    Y text  for EVERY ordered pair (X, Y) of block kinds: the last block of a section against
    the first block of the next one, plus every ordered pair of adjacent figures), "runs3" / "runs5all" (whole articles around a
-   run of k <= 3 / 5 consecutive figures, galleries or tables, for every k x follower x preceder), "full" (every variant once, exhaustive for single articles), "rich"
+   run of k <= 3 / 5 consecutive figures, galleries or tables, for every k x follower x preceder),
+   "share" / "sharesame" (books whose articles have a book-level identifier in common: a
+   reference name defined in each with its own text and re-used, a stored image, a template, an
+   identical section heading, an external URL; the harness also repeats the title word of a
+   chapter's first article in the chapter title), "full" (every variant once, exhaustive for single articles), "rich"
    (parameterised productions, for -simulate). *)
 EXTENDS Naturals, Sequences, FiniteSets, TLC, Json
 
 CONSTANTS MaxArts,      \* 1..4
           MaxBlocks,    \* blocks per article
           MinBlocks,    \* 1 normally; = MaxBlocks to enumerate exactly-k-block articles
-          Palette,      \* "mini" | "core" | "full" | "pairs" | "pairsall" | "runs3" | "runs5all" | "rich"
+          Palette,      \* "mini" | "core" | "full" | "pairs" | "pairsall" | "runs3" | "runs5all" | "share" | "sharesame" | "rich"
           Chapters,     \* BOOLEAN: chapter layouts enumerated (FALSE: no chapters)
           EmitCases     \* TRUE: print every finished collection as JSON (P-ENUM)
 
@@ -87,6 +91,11 @@ LL(n)          == [t |-> "ll", w |-> n]
 LB(n)          == [t |-> "lb", w |-> n]
 LE(n)          == [t |-> "le", w |-> n]
 RF(n)          == [t |-> "ref", w |-> n]
+\* book-level shared identifiers: a reference NAME (defined with its own text / re-used), and a
+\* shared word (ids 951..: the same text in several articles, denoted in each of them)
+RN(nm, n)      == [t |-> "refn", nm |-> nm, w |-> n]       \* <ref name="r<nm>">word</ref>
+RU(nm)         == [t |-> "refu", nm |-> nm, w |-> 0]       \* <ref name="r<nm>" />
+SW(k)          == [t |-> "sw", w |-> 950 + k]
 TC(tp, n)      == [t |-> "tc", tp |-> tp, w |-> n]
 IM(i, n)       == [t |-> "img", i |-> i, w |-> n]
 FG(i, k, n, s) == [t |-> "fig", i |-> i, k |-> k, w |-> n, s |-> s, tp |-> ""]
@@ -121,6 +130,9 @@ DenItem(x, c) ==
     [] x.t = "lb"  -> <<DW(x.w, c \o "/link-bare")>>
     [] x.t = "le"  -> <<DW(x.w, c \o "/extlink-label")>>
     [] x.t = "ref" -> <<DW(x.w, c \o "/ref")>>
+    [] x.t = "refn" -> <<DW(x.w, c \o "/named-ref")>>
+    [] x.t = "refu" -> <<>>                                   \* re-use of a defined reference: no words
+    [] x.t = "sw"  -> <<DW(x.w, c \o "/shared-word")>>
     [] x.t = "tc"  -> <<DW(x.w, c \o "/template-arg-" \o x.tp)>>
                       \o [k \in 1..Len(TplWords(x.tp)) |-> DW(TplWords(x.tp)[k], c \o "/template-word-" \o x.tp)]
     [] x.t = "img" -> <<>>                                    \* alt text only
@@ -169,7 +181,7 @@ ItemsBlock(b) ==
                           \cup (IF b.cap = 0 THEN {} ELSE {[t |-> "gcap", w |-> b.cap]})
     [] b.b = "tpl"     -> {TC(b.tp, b.w)}
 ItemsOf(bs)  == UNION {ItemsBlock(bs[k]) : k \in 1..Len(bs)}
-IdsOf(bs)    == {x.w : x \in ItemsOf(bs)}
+IdsOf(bs)    == {x.w : x \in {y \in ItemsOf(bs) : y.t \notin {"refu", "sw"}}}
 AltsOf(bs)   == {x.w : x \in {y \in ItemsOf(bs) : y.t = "img"}}
 TplsOf(bs)   == UNION {TplDeps(x.tp) : x \in {y \in ItemsOf(bs) : y.t = "tc" \/ (y.t = "fig" /\ y.tp # "")}}
 ImgsOf(bs)   == {x.i : x \in {y \in ItemsOf(bs) : y.t \in {"img", "fig", "gi"}}}
@@ -348,6 +360,23 @@ Runs(maxk, all, n) ==
              same \in BOOLEAN, tplast \in BOOLEAN }
         ELSE {})
 
+\* book-level sharing: one production per kind of identifier that several articles of a book can
+\* have in common (the words stay unique): reference name r1 defined with the article's own text
+\* and re-used, two names, stored image 1, templates Tinl / Ttable with the article's own
+\* arguments, an identical section heading, the same external URL
+ShareSeq(n) ==
+  << PS(<<Para(<<W(n, "n"), RN(1, n + 1), W(n + 2, "n"), RU(1)>>)>>, 3),
+     PS(<<Para(<<RN(1, n), RN(2, n + 1), RU(1), W(n + 2, "n"), RU(2)>>),
+          ListOf(n + 3, <<"*">>, "n")>>, 4),
+     PS(<<Fig(FG(1, "thumb", n, "n")), Para(<<W(n + 1, "n"), IM(1, n + 2)>>)>>, 3),
+     PS(<<Para(<<W(n, "n"), TC("Tinl", n + 1)>>), Tpl("Ttable", n + 2)>>, 3),
+     PS(<<Para(<<W(n, "n")>>), Hd(2, <<SW(1)>>), Para(<<W(n + 1, "n")>>)>>, 2),
+     PS(<<Para(<<W(n, "n"), LE(n + 1)>>)>>, 2) >>
+Share(n) == Range(ShareSeq(n))
+\* every article of the book gets the production of the first article (which starts at word 1)
+ShareSame(n) == IF Len(arts) = 1 THEN Share(n)
+                ELSE {ShareSeq(n)[k] : k \in {j \in 1..Len(ShareSeq(n)) : arts[1] = ShareSeq(1)[j].blks}}
+
 \* parameterised productions for random composition (-simulate)
 CellChoices(n) ==
   { Cell(h, <<Mk(k, n)>>, <<>>) : h \in BOOLEAN, k \in {"n", "b", "i", "ll", "le", "ref", "Tinl", "Tbold"} }
@@ -371,7 +400,7 @@ Rich(n) ==
            IF hc THEN m + 1 ELSE m) :
            m \in 1..4, pr \in {0, 1, 2, 3}, off \in 0..2, hc \in BOOLEAN }
 
-Blocks(n) == CASE Palette = "runs3" -> Runs(3, FALSE, n) [] Palette = "runs5all" -> Runs(5, TRUE, n) [] Palette = "pairs" -> Pairs(n) [] Palette = "pairsall" -> PairsAll(n) [] Palette = "mini" -> Mini(n) [] Palette = "core" -> Core(n) [] Palette = "full" -> Full(n) [] Palette = "rich" -> Rich(n)
+Blocks(n) == CASE Palette = "share" -> Share(n) [] Palette = "sharesame" -> ShareSame(n) [] Palette = "runs3" -> Runs(3, FALSE, n) [] Palette = "runs5all" -> Runs(5, TRUE, n) [] Palette = "pairs" -> Pairs(n) [] Palette = "pairsall" -> PairsAll(n) [] Palette = "mini" -> Mini(n) [] Palette = "core" -> Core(n) [] Palette = "full" -> Full(n) [] Palette = "rich" -> Rich(n)
 
 -----------------------------------------------------------------------------
 Plans  == UNION {[1..k -> MinBlocks..MaxBlocks] : k \in 1..MaxArts}
